@@ -21,7 +21,7 @@ TECHNIQUE = ('Hypothesis-generated workbooks x output sets x input sets '
              'pre-trim history x assignment sequences; differential against '
              'a fresh untrimmed compile, repeated after a save/load round '
              'trip of the trimmed model'
-             '; enumerated scenarios: 17 kinds of frozen value x {direct, yml, json, pkl}, unbounded reference + bounded twin in every pre-evaluation order')
+             '; enumerated scenarios: 17 kinds of frozen value x {direct, yml, json, pkl}, unbounded reference + bounded twin in every pre-evaluation order; range inputs that are / are not read as a range')
 LEVEL_TEXT = ('Exploration over generated workbooks; inputs are chosen from '
               'the real ancestor set of the outputs so that trims are '
               'meaningful, outputs are or are not evaluated before the trim, '
